@@ -37,6 +37,7 @@ type HarnessSpec struct {
 	Timers    bool     `json:"timers"`
 	NoMapFork bool     `json:"no_map_fork"`
 	ReplayTest string  `json:"replay_test"` // native test that demonstrates a scheduling-dependent violation
+	EngineReplay bool  `json:"engine_replay"` // environment is a model (file system): counterexamples are re-executed concretely in the engine
 	Pkg       string   `json:"pkg"`         // "" = mqtt, "mqtttest"
 }
 
@@ -276,7 +277,29 @@ func cmdCheck(args []string) int {
 				problems = append(problems, "cannot write replay dir: "+err.Error())
 				continue
 			}
-			ok, out := runReplayDir(dir)
+			var ok bool
+			var out string
+			if hs.EngineReplay {
+				e2, _ := NewEngine(c, P, hs.Name)
+				e2.params = ts.Params
+				e2.fixed = v.Model
+				if e2.fixed == nil {
+					e2.fixed = []NondetVal{}
+				}
+				sv, err := NewSolver(c.Solver)
+				if err == nil {
+					res := e2.runPath(sv, v.Trace)
+					sv.Close()
+					for _, rv := range res.Violations {
+						if rv.Msg == v.Msg {
+							ok = true
+						}
+					}
+					out = fmt.Sprintf("concrete re-execution in the engine (modelled environment): end=%s %s reproduced=%v\n", res.End.kind, res.End.msg, ok)
+				}
+			} else {
+				ok, out = runReplayDir(dir)
+			}
 			replayed++
 			os.WriteFile(filepath.Join(dir, "replay.log"), []byte(out), 0o644)
 			isKnown := ""
